@@ -35,6 +35,15 @@ def time_comparison_table(cls: ast.ClassDef, method: str, depth: int = 0) -> Dic
         if method == "__ne__":  # object.__ne__ inverts __eq__
             t = time_comparison_table(cls, "__eq__", depth + 1)
             return {c: not v for c, v in t.items()}
+        if any(norm(d).split(".")[-1] == "total_ordering" for d in cls.decorator_list) and "__lt__" in methods and "__eq__" in methods \
+                and method in ("__gt__", "__le__", "__ge__"):
+            # functools.total_ordering derives the missing methods from __lt__ and __eq__ (CPython: _gt_from_lt, _le_from_lt, _ge_from_lt)
+            lt, eq = time_comparison_table(cls, "__lt__", depth + 1), time_comparison_table(cls, "__eq__", depth + 1)
+            if method == "__gt__":
+                return {c: (not lt[c]) and not eq[c] for c in lt}
+            if method == "__le__":
+                return {c: lt[c] or eq[c] for c in lt}
+            return {c: not lt[c] for c in lt}
         raise NotInFragment(f"{method} not defined")
     fn = methods[method]
     params = param_names(fn)
@@ -268,8 +277,23 @@ def analyse(src: Source) -> List[Report]:
                     if isinstance(v, (int, float)) and not isinstance(v, bool):
                         return ast.copy_location(ast.Constant(value=v), node)
                 return node
+        init_params = param_names(ci.methods["__init__"]) if "__init__" in ci.methods else []
+
+        class _Ctor(ast.NodeTransformer):
+            """`cls(..)` in a classmethod is `Time(..)`; keyword arguments of the constructor are put in parameter order"""
+            def visit_Call(self, node: ast.Call):
+                self.generic_visit(node)
+                if isinstance(node.func, ast.Name) and node.func.id in ("cls", "Time"):
+                    node.func = ast.copy_location(ast.Name(id="Time", ctx=ast.Load()), node.func)
+                    if node.keywords and all(k.arg in init_params for k in node.keywords) and not any(isinstance(a, ast.Starred) for a in node.args):
+                        vals = dict(zip(init_params, node.args))
+                        vals.update({k.arg: k.value for k in node.keywords})
+                        if list(vals) == init_params[:len(vals)] or set(vals) == set(init_params):
+                            node.args = [vals[p_] for p_ in init_params if p_ in vals]
+                            node.keywords = []
+                return node
         cls = copy.copy(cls)
-        cls.body = [(_Consts().visit(copy.deepcopy(canon(prog, ci, m))) if isinstance(m, ast.FunctionDef) else m) for m in cls.body]
+        cls.body = [(_Ctor().visit(_Consts().visit(copy.deepcopy(canon(prog, ci, m)))) if isinstance(m, ast.FunctionDef) else m) for m in cls.body]
     methods = {m.name: m for m in cls.body if isinstance(m, ast.FunctionDef)}
     # ---- R14.1 ------------------------------------------------------------------------------------------------
     # comparisons are decided from the orderings of the two quotients and of the two remainders alone: any arithmetic on a
